@@ -592,6 +592,42 @@ func longgapHistory(r *lib.Rng) {
 	s.emit("extreme")
 }
 
+// long stretches of the stiffening branch: weight 150..1000 on every update,
+// constant spacing of 2.5 / 16 / 64 s (never a repeated reading), hundreds of
+// updates: the stored gains are multiplied by math.Pow(0.999, dt) every time,
+// the integrator accumulates, and the frequency handed to Adjust must stay finite.
+func stiffenHistory(r *lib.Rng, spacing int64, n int) {
+	s := newSession()
+	s.kind = "pll.stiffen"
+	s.tags["long"] = true
+	s.tags["pow"] = true
+	now := reading{r.Range(1600000000, 2000000000), r.Range(0, second-1)}
+	ep := uint64(r.Intn(3))
+	w := func() uint64 { return wbits(float64(r.Range(150, 1000)) + float64(r.Intn(4))*0.25) }
+	off := func() int64 {
+		o := lib.Pick(r, r.Range(1000, 50000), r.Range(50000, 900000), r.Range(1000000, 50000000), r.Range(second/10, 3*second))
+		return lib.Pick(r, int64(1), -1) * o
+	}
+	s.do(update{now, ep, r.Range(-900000, 900000), w()})
+	now = now.add(2*second + r.Range(1, second))
+	s.do(update{now, ep, r.Range(-900000, 900000), w()}) // below 1 ms: no step
+	now = now.add(6*second + r.Range(1, second))
+	s.do(update{now, ep, off(), w()})
+	jitter := r.Intn(2) == 0
+	for k := 0; k < n; k++ {
+		g := spacing
+		if jitter {
+			g += r.Range(-spacing/20, spacing/20)
+		}
+		now = now.add(g)
+		s.do(update{now, ep, off(), w()})
+	}
+	if n >= 600 {
+		s.tags["len600"] = true
+	}
+	s.emit()
+}
+
 // fixed histories that hit the clauses of the property directly
 func scripted() {
 	type st struct {
@@ -712,6 +748,15 @@ func main() {
 	scripted()
 	for i := 0; i < 10; i++ {
 		longgapHistory(r)
+	}
+	nst := 2
+	if a.Tier == "thorough" {
+		nst = 10
+	}
+	for i := 0; i < nst; i++ {
+		stiffenHistory(r, 2500000000, 600+r.Intn(60))
+		stiffenHistory(r, 16*second, 200+r.Intn(200))
+		stiffenHistory(r, 64*second, 200+r.Intn(400))
 	}
 	// very long histories, every flavour in turn (the seed picks where the turn starts)
 	for i := 0; i < n600; i++ {
